@@ -5,6 +5,7 @@ import (
 	"encoding/json"
 	"errors"
 	"fmt"
+	"math"
 
 	"github.com/yaricom/goNEAT/v4/experiment"
 	"github.com/yaricom/goNEAT/v4/neat"
@@ -34,6 +35,9 @@ type c20Input struct {
 	// Reuse: the same Experiment value first executed a longer run (two more trials, all unsolved)
 	Prealloc int  `json:"prealloc,omitempty"`
 	Reuse    bool `json:"reuse,omitempty"`
+	// Huge: NumGenerations is "run until solved" (math.MaxInt / 1<<56) instead of the row length; only used with
+	// scripts in which every trial has an outcome other than "unsolved" (the run then ends inside the script)
+	Huge int `json:"huge_generation_limit,omitempty"`
 }
 
 type c20Pop struct {
@@ -47,8 +51,8 @@ type c20Env struct {
 	script [][]int
 	cancel context.CancelFunc
 	trace  [][]int64
-	pops   []*c20Pop        // distinct populations in order of first appearance
-	byT    map[int]*c20Pop  // population evaluated in trial t
+	pops   []*c20Pop       // distinct populations in order of first appearance
+	byT    map[int]*c20Pop // population evaluated in trial t
 }
 
 func (e *c20Env) popFor(p *genetics.Population) (int, *c20Pop) {
@@ -125,6 +129,21 @@ func (o c20Obs) EpochEvaluated(t *experiment.Trial, g *experiment.Generation) {
 	o.e.trace = append(o.e.trace, []int64{4, int64(t.Id), int64(g.Id)})
 }
 
+func c20EveryTrialDecides(script [][]int) bool {
+	for _, row := range script {
+		decides := false
+		for _, o := range row {
+			if o != 0 {
+				decides = true
+			}
+		}
+		if !decides {
+			return false
+		}
+	}
+	return len(script) > 0
+}
+
 // c20Exec runs the real Execute; returns the observable trace (record events merged in) and status
 func c20Exec(in c20Input) (trace [][]int64, status int, execErr error) {
 	quiet()
@@ -134,6 +153,9 @@ func c20Exec(in c20Input) (trace [][]int64, status int, execErr error) {
 	opts.NumGenerations = 0
 	if len(in.Script) > 0 {
 		opts.NumGenerations = len(in.Script[0])
+	}
+	if in.Huge > 0 && c20EveryTrialDecides(in.Script) {
+		opts.NumGenerations = []int{math.MaxInt, math.MaxInt / 2, 1 << 56}[in.Huge%3]
 	}
 	ctx, cancel := context.WithCancel(context.Background())
 	defer cancel()
@@ -383,7 +405,11 @@ func runC20(r *Run) error {
 				}
 			}
 		}
-		add(c20Input{Obs: r.Rng.Intn(4) != 0, Script: script})
+		inp := c20Input{Obs: r.Rng.Intn(4) != 0, Script: script}
+		if c20EveryTrialDecides(script) && r.Rng.Intn(2) == 0 {
+			inp.Huge = 1 + r.Rng.Intn(3)
+		}
+		add(inp)
 	}
 	// pre-allocated and reused Experiment values: still exactly the configured number of trials
 	for i := 0; i < r.N(120, 2000); i++ {
